@@ -38,9 +38,9 @@ def generate(rng, cfg: Dict) -> Dict:
     ops: List[list] = []
     for _ in range(c.int(1, 10)):
         if kind == "list":
-            k = c.weighted([("assign", 3), ("self_assign", 2), ("iadd", 2.5), ("append", 3), ("extend", 2), ("insert", 2), ("setitem", 2), ("setslice", 1.5), ("gc", 0.4), ("sweep", 0.4), ("retire", 1.0), ("create_elem", 1.0), ("from_other", 1.2)])
+            k = c.weighted([("assign", 3), ("self_assign", 2), ("iadd", 2.5), ("append", 3), ("extend", 2), ("insert", 2), ("setitem", 2), ("setslice", 1.5), ("gc", 0.4), ("sweep", 0.4), ("retire", 1.0), ("create_elem", 1.0), ("from_other", 1.2), ("assign_view", 1.5)])
         else:
-            k = c.weighted([("assign", 3), ("self_assign", 2), ("ior", 2.5), ("add", 3), ("update", 2), ("gc", 0.4), ("sweep", 0.4), ("retire", 0.8), ("create_elem", 0.8), ("from_other", 1.2)])
+            k = c.weighted([("assign", 3), ("self_assign", 2), ("ior", 2.5), ("add", 3), ("update", 2), ("gc", 0.4), ("sweep", 0.4), ("retire", 0.8), ("create_elem", 0.8), ("from_other", 1.2), ("assign_view", 1.5)])
         if k in ("assign", "iadd", "extend", "ior", "update"):
             # Python accepts any iterable for extend / update / += and any set-like for |=
             arg = c.weighted([("same", 5), ("tuple", 1), ("generator", 2), ("iterator", 1), ("other", 1)]) if k in ("extend", "update", "iadd") else "same"
@@ -51,6 +51,10 @@ def generate(rng, cfg: Dict) -> Dict:
             ops.append([k, c.int(-4, 6), c.pick(elems)])
         elif k == "setslice":
             ops.append([k, c.int(0, 4), c.int(0, 5), some(0, 3)])
+        elif k == "assign_view":
+            # the assigned value is a lazily evaluated iterable that READS the field being assigned
+            view = c.pick(["generator", "filter", "chain", "reversed"] if kind == "list" else ["generator", "filter", "chain"])
+            ops.append([k, view, c.pick(elems), c.pick(elems)])
         elif k == "from_other":
             # another instance of the owner's class gets some contents, then its LIVE field is assigned to the owner
             ops.append([k, some(0, 3)])
@@ -72,6 +76,10 @@ def generate(rng, cfg: Dict) -> Dict:
             ops.append([k, new_serial])
         else:
             ops.append([k])
+    if c.chance(0.12):
+        # last op of the history: a shallow copy of the owner (it shares the container object, as plain Python objects
+        # do) is written through; the written element must be recorded for the copy
+        ops.append(["alias_write", c.pick(["append", "iadd"] if kind == "list" else ["add", "ior"]), c.pick(elems)])
     return {"property": "C16", "machine": "onto_sim", "salt": c.int(0, 1 << 30), "kind": kind, "population": population, "owner": owner, "initial": initial, "ops": ops}
 
 
@@ -177,6 +185,74 @@ def execute(scenario: Dict) -> Dict:
                 ever.update(vals)
                 nontrivial = True
                 if not check(k, n):
+                    break
+                continue
+            if k == "alias_write":
+                import copy as _copy
+
+                if op[2] not in pop.objs:
+                    counters.inc("ops_skipped")
+                    continue
+                counters.inc("fault.write_path.alias_" + op[1])
+                twin_serial = owner_serial + 2
+                try:
+                    twin = _copy.copy(owner)
+                    twin.serial = twin_serial
+                    pop.objs[twin_serial] = twin
+                    pop.cls_of[twin_serial] = tgt["owner_cls"]
+                    elem = pop.objs[op[2]]
+                    if op[1] == "append":
+                        getattr(twin, field).append(elem)
+                    elif op[1] == "add":
+                        getattr(twin, field).add(elem)
+                    elif op[1] == "iadd":
+                        exec(f"o.{field} += [x]", {"o": twin, "x": elem})
+                    else:
+                        exec(f"o.{field} |= {{x}}", {"o": twin, "x": elem})
+                except Exception as e:
+                    verdicts.append(kernel.verdict("C16.exception", f"op {n} (alias_write {op[1]}) raised {type(e).__name__}: {e}", op=k, kind=kind))
+                    break
+                # two owners of one container object are outside what the model can follow; judged is only what the
+                # property says about the write itself: the element is recorded for the instance written through
+                facts = set(pop.graph_facts())
+                inv_prop = PROPS[prop]["inverse"]
+                want = {(twin_serial, prop, op[2]), (op[2], inv_prop, twin_serial)}
+                if not want <= facts:
+                    verdicts.append(kernel.verdict("C16.recorded", f"after op {n} ({op[1]} through a shallow copy of the owner that shares the container): relations missing from the graph {sorted(want - facts, key=str)}", op=k, kind=kind, aspect="missing"))
+                nontrivial = True
+                break
+            if k == "assign_view":
+                import itertools as _it
+
+                view_kind, a, b = op[1], op[2], op[3]
+                if a not in pop.objs or b not in pop.objs:
+                    counters.inc("ops_skipped")
+                    continue
+                counters.inc("fault.write_path.assign_view_" + view_kind)
+                old = list(model) if kind == "list" else set(model)
+                cur = getattr(owner, field)
+                if view_kind == "generator":
+                    value = (m for m in cur)
+                    new = list(old)
+                elif view_kind == "filter":
+                    value = filter(lambda m: m.serial != a, cur)
+                    new = [x for x in old if x != a]
+                elif view_kind == "chain":
+                    value = _it.chain(cur, [pop.objs[b]])
+                    new = list(old) + [b]
+                else:
+                    value = reversed(cur)
+                    new = list(reversed(list(old)))
+                del cur
+                try:
+                    setattr(owner, field, value)
+                except Exception as e:
+                    verdicts.append(kernel.verdict("C16.exception", f"op {n} (assign_view {view_kind}) raised {type(e).__name__}: {e}", op=k, kind=kind))
+                    break
+                model = new if kind == "list" else set(new)
+                ever.update(new)
+                nontrivial = nontrivial or len(old) >= 1
+                if not check(k + ":" + view_kind, n):
                     break
                 continue
             if k == "create_elem":
